@@ -241,10 +241,20 @@ def c11_2(ctx, R="C11.2"):
     errs = [bi for bi in b.err_exits()]
     ctx.ob(R, "err-exits", len(errs) >= 2, "pair and non-canonical encodings are rejected", found=len(errs))
     # constants inventory of the canonical test (mask 0x80 used twice, literal [0])
-    masks = sum(1 for bi, blk in enumerate(b.blocks) if bi in b.reach for s in blk["s"]
-                if s["k"] == "assign" and s["rv"]["k"] == "bin" and s["rv"]["op"] == "BitAnd" and
-                "c" in s["rv"]["b"] and s["rv"]["b"]["c"].get("v") == 0x80)
-    ctx.ob(R, "sign-mask", masks == 2, "sign tests use mask 0x80 on buf[0] and buf[1]", found=masks)
+    # (distinct tested operands of branch conditions `(X & 0x80) ==/!= 0`; however the byte is fetched)
+    tested = set()
+    for node in b.edge_info:
+        t, lab = b.edge_condition(node)
+        t = strip_all(t)
+        if t[0] == "bin" and t[1] in ("Ne", "Eq") and lab[0] == "bool":
+            for x, z in ((t[2], t[3]), (t[3], t[2])):
+                x, z = strip_all(x), strip_all(z)
+                if x[0] == "bin" and x[1] == "BitAnd" and z[0] == "c" and z[2] == 0:
+                    for m_, o_ in ((x[2], x[3]), (x[3], x[2])):
+                        if strip_all(m_)[0] == "c" and strip_all(m_)[2] == 0x80:
+                            tested.add(show(strip_all(o_)))
+    masks = len(tested)
+    ctx.ob(R, "sign-mask", masks == 2, "sign tests use mask 0x80 on two distinct bytes (buf[0] and buf[1])", found=sorted(tested))
     ctx.sample({"rule": R, "ok": [show(v) for _, v in vals], "neg": len(neg), "pos": len(pos)})
 
 
